@@ -19,7 +19,8 @@ Norm(st) == [vers |-> {st.vers[i] : i \in 1..Len(st.vers)},
              ecdsaHashes |-> {st.ecdsaHashes[i] : i \in 1..Len(st.ecdsaHashes)},
              rsaSchemes |-> {st.rsaSchemes[i] : i \in 1..Len(st.rsaSchemes)},
              minKey |-> st.minKey, maxKey |-> st.maxKey, etm |-> st.etm, ems |-> st.ems, reqEms |-> st.reqEms,
-             rsl |-> st.rsl, alpn |-> st.alpn]
+             rsl |-> st.rsl, alpn |-> st.alpn,
+             pskModes |-> {st.pskModes[i] : i \in 1..Len(st.pskModes)}]
 \* RFC 8446 4.1.3: a TLS 1.3 server that negotiates an older version marks ServerHello.random; a TLS 1.3 client
 \* that is offered an older version by such a server MUST abort with illegal_parameter when it sees the mark -
 \* at the ServerHello, whatever the attacker does later.  sawVer = version of the ServerHello the client
@@ -28,8 +29,12 @@ SentinelEnforced(cs, ss, sawVer, local) ==
   (4 \in cs.vers /\ 4 \in ss.vers /\ sawVer >= 0 /\ sawVer < 4 /\ sawVer \in ss.vers) => local = "illegal_parameter"
 \* ... and the server side of the same rule: a TLS 1.3 capable server marks the ServerHello.random of an older
 \* version with DOWNGRD 01 (TLS 1.2) / DOWNGRD 00 (TLS 1.1 and below), and never marks a TLS 1.3 hello
+\* A server whose highest version is TLS 1.2 never marks a TLS 1.2 hello (a TLS 1.3 capable client would have to
+\* abort) and may mark older ones with DOWNGRD 00 (RFC 8446: SHOULD); a server limited to TLS 1.1 marks nothing.
 ServerMark(ss, sawVer, mark) ==
-  (4 \in ss.vers /\ sawVer >= 0) => mark = (IF sawVer = 4 THEN "" ELSE IF sawVer = 3 THEN "01" ELSE "00")
+  /\ (4 \in ss.vers /\ sawVer >= 0) => mark = (IF sawVer = 4 THEN "" ELSE IF sawVer = 3 THEN "01" ELSE "00")
+  /\ (4 \notin ss.vers /\ 3 \in ss.vers /\ sawVer >= 0) => (IF sawVer = 3 THEN mark = "" ELSE mark \in {"", "00"})
+  /\ (4 \notin ss.vers /\ 3 \notin ss.vers /\ sawVer >= 0) => mark = ""
 TraceInit == tid \in 1..N /\ l = 2
 TraceNext ==
   /\ l <= Len(T) /\ E.ev = "RES" /\ l' = l + 1 /\ UNCHANGED tid
